@@ -32,6 +32,38 @@ def base_cfg(r, mod="rand"):
     return cfg
 
 
+VIA_LINK = {"max_message": 4096, "max_payload": 1 << 16, "backoff_initial_ms": 1, "backoff_max_ms": 2, "client_timeout_ms": 40}
+
+
+def to_via(case):
+    """Re-route the history's modulator through the real S2M/M2S wire path (S2mClient, unix sockets, S2M and
+    M2S dispatchers, M2sClient).  The modulator then declares payload forwarding and private-payload push (the
+    C2S server hands every broadcast to S2mClient, which refuses undeclared operations locally); a failed call
+    reaches the server only after the client's timeout, so each op gets a longer (virtual) settling time and
+    keep-alive pings are pushed out of the history's time span."""
+    import copy
+    c = copy.deepcopy(case)
+    m = c["cfg"].get("mod")
+    if not m or c.get("nomodel"):
+        return case
+    for op in c["ops"]:
+        if op["t"] not in ("open", "send", "hangup", "m2s_direct"):
+            return case
+        if any(isinstance(x, dict) and "park" in x for x in (op.get("script") or [])):
+            return case
+    for o in ("fwd-broadcast-payload", "recv-private-payload"):
+        if o not in m["ops"]:
+            m["ops"].append(o)
+    order = ["auth", "fwd-broadcast-payload", "fwd-event", "send-private-payload", "recv-private-payload"]
+    m["ops"] = [o for o in order if o in m["ops"]]
+    m["via"] = "s2m"
+    m["link"] = dict(VIA_LINK)
+    c["cfg"]["min_keepalive_ms"] = 3600000
+    c["cfg"]["keepalive_ms"] = 3600000
+    c["cfg"]["settle_ms"] = 400
+    return c
+
+
 def enc_val(v):
     if isinstance(v, int):
         return str(v).encode()
